@@ -65,6 +65,34 @@ fn reference_encode(v: Variant, prefix: &str, data: &[u8]) -> Result<String, Str
     }
 }
 
+/// Other strings for the same bytes: the unused padding bits of the last data symbol set (there are
+/// `(5 - 8 * len % 5) % 5` of them), checksum recomputed.
+fn padded_spellings(v: Variant, prefix: &str, data: &[u8]) -> Vec<String> {
+    use bech32::{ByteIterExt, Fe32, Fe32IterExt};
+    let pad_bits = (5 - (8 * data.len()) % 5) % 5;
+    let hrp = match Hrp::parse(prefix) {
+        Ok(h) => h,
+        Err(_) => return vec![],
+    };
+    let mut out = vec![];
+    for bits in 1u8..(1 << pad_bits) {
+        let mut fes: Vec<Fe32> = data.iter().copied().bytes_to_fes().collect();
+        let last = match fes.pop() {
+            Some(l) => l,
+            None => return out,
+        };
+        match Fe32::try_from(last.to_u8() | bits) {
+            Ok(f) => fes.push(f),
+            Err(_) => continue,
+        }
+        out.push(match v {
+            Variant::Bech32 => fes.into_iter().with_checksum::<Bech32>(&hrp).chars().collect(),
+            Variant::Bech32m => fes.into_iter().with_checksum::<Bech32m>(&hrp).chars().collect(),
+        });
+    }
+    out
+}
+
 fn other(v: Variant) -> Variant {
     match v {
         Variant::Bech32 => Variant::Bech32m,
@@ -165,11 +193,19 @@ fn run_case_inner(case: &Case, rep: &mut Report) -> Option<(String, String)> {
                     rep.bump("c18/foreign_prefix_rejected");
                 }
             }
-            // all-uppercase form: counted, not judged (the statement is ambiguous there)
-            match api.addr_validate(&reference.to_uppercase()) {
-                Ok(a) if a.as_str() == reference.to_uppercase() => rep.bump("c18/observation/uppercase_accepted_unchanged"),
-                Ok(_) => rep.bump("c18/observation/uppercase_accepted_and_lowercased"),
-                Err(_) => rep.bump("c18/observation/uppercase_rejected"),
+            // other spellings of the same bytes (all upper case; non-zero padding bits): whether they count as
+            // "decoding under the codec" is open, but whatever validation accepts it returns unchanged
+            let mut spellings = vec![("uppercase", reference.to_uppercase())];
+            for s in padded_spellings(v, prefix, &bytes) {
+                spellings.push(("nonzero_padding", s));
+            }
+            for (what, s) in spellings {
+                match api.addr_validate(&s) {
+                    Ok(a) if a.as_str() == s => rep.bump(&format!("c18/observation/{}_accepted_unchanged", what)),
+                    Ok(a) => fail!("validate-alters-accepted-address", "{:?} prefix {:?}: validate({}) = {} ({} spelling of {})", v, prefix, s, a, what, canonical),
+                    Err(_) => rep.bump(&format!("c18/observation/{}_rejected", what)),
+                }
+                rep.bump("c18/accepted_implies_unchanged_checked");
             }
             if *sweep {
                 rep.fingerprints.insert(fp_str(&format!("{:?}/{}/{}", v, prefix, canonical)));
